@@ -82,6 +82,8 @@ type Task struct {
 	Depth  int  `json:"depth"`
 	Expand bool `json:"expand"`
 	Trace  bool `json:"trace"`
+	// Batch: run each of these parameter instances once (depth 0) instead of Params
+	Batch []Params `json:"batch,omitempty"`
 	// Instances: ask for the parameter instances of a tier instead of running
 	Instances string `json:"instances,omitempty"`
 	// Known: matchers of known findings applicable to this scenario instance;
@@ -256,10 +258,16 @@ func (w *worker) node(s *Scenario, prefix []int, hash uint64, depth int, expand 
 	if x.Devs > r.MaxDevs {
 		r.MaxDevs = x.Devs
 	}
-	for _, st := range x.Steps {
-		if st.NAlts >= 2 {
+	if nt, ok := x.Data["nontrivial"].(bool); ok {
+		if nt {
 			r.Contended++
-			break
+		}
+	} else {
+		for _, st := range x.Steps {
+			if st.NAlts >= 2 {
+				r.Contended++
+				break
+			}
 		}
 	}
 	r.Outcomes[outcomeKey(x)]++
@@ -380,6 +388,15 @@ func WorkerMain() {
 			res.Err = "unknown scenario " + t.Scen
 		case t.Instances != "":
 			res.Instances = s.Instances(t.Instances)
+		case len(t.Batch) > 0:
+			w.res = res
+			for _, ps := range t.Batch {
+				bt := t
+				bt.Params = ps
+				bt.Batch = nil
+				w.task = &bt
+				w.node(s, nil, 0, 0, false)
+			}
 		default:
 			w.res, w.task = res, &t
 			w.node(s, t.Prefix, t.Hash, t.Depth, t.Expand)
